@@ -4,7 +4,7 @@
 # /repo and /verif/evidence are untouched and other runs can go on), but with an explicit list of checks per seed and the
 # replay artefacts kept in /tmp/rigs-out/<name>/. Quick cap raised (VERIF_QUICK_CAP_S=300) because the machine may be busy.
 set -u
-RIG=/tmp/rigs
+RIG=${RIG:-/tmp/rigs}
 LIST=$1
 rm -rf $RIG; mkdir -p $RIG /tmp/rigs-out
 git -C /repo worktree prune
